@@ -23,7 +23,8 @@ LEVEL_TEXT = ("Machine-checked Coq theorems (one dot/link/box per label in order
               "their positions with their texts) on Gallina models of renderer.py and both emitters of timeline.py, tied to the "
               "code by differential execution of both exports on every run. The affine-scale clause (C07_affine) is proved on the axis-pipeline "
               "model coq/Render/Axis.v (parse_items, init_axis with nice(), scale(time), ticks) composed from the scale and time "
-              "packages; that model is tied to the code by the C11 check.")
+              "packages; that model is tied to the code by the C11 check."
+              " On the whole-pipeline model coq/Render/Pipeline.v (raw data -> axis -> engine -> both documents) C07_pipeline states every clause with no abstract hypothesis left, C07_pipeline_total its totality on the documented domain, C07_ticktext the tick texts; the pipeline:* family (API 850) compares the model's documents with the real exports taking nothing but the raw input from the implementation.")
 LEVEL_NOTE = ("Trusted: Coq kernel; extraction re-checked on a slice by vm_compute; the correspondence harness (SVG/TikZ parsers, "
               "generators; integers and strings exact; %f/%.16f decimals digit for digit, %.8f digit for digit when all sizes are "
               "dyadic and else to the printed precision; str() numbers to relative 1e-9). scale(time) and tickFormat are inputs of THIS tie (the document model); "
